@@ -3,11 +3,18 @@
    invisible to structuring at a class (SemThy.class_ignores_extras: the result is EQUAL, so re-serialisation is too);
    (2) instance: the converter does not forbid extra keys, and every key any registered hook probes is a property name
    of the metamodel — so a FRESH name (one the metamodel does not declare) is never probed by a hook and never matches a
-   wire name.  Not yet proved: the composition through hooks and nested nodes for all valid messages; validated on every
-   run by the extras stream (fresh properties at one node / every node / nested payloads; model = real; result and
-   re-serialisation equal to the un-extended run). *)
-From LSP Require Import Base MM Sem SemThy Image.
-From Gen Require Import MMData PkgData.
+   wire name;  (3) ROUND 4 — AT EVERY DEPTH, for the covered part of the package (props/Cover.v: 553 of 554 classes, 83 of 88 hooked
+   unions, 163 of 164 message classes): [C15_unknown_properties_ignored_everywhere] / [.._messages] — for every covered structure /
+   message class, EVERY closed-valid value j of the metamodel and EVERY j' obtained from j by adding properties with undeclared names to
+   protocol objects anywhere inside it (LSP.Ext.xt: through arrays, maps, attributes and unions, through every registered hook),
+   structuring j' succeeds with exactly the value structuring j gives, which serialises to j up to nulls — no bound on size, depth or
+   the number / payload of the added properties.  Outside the covered part (the class that reaches the one hook outside the
+   proved fragment) and for positions of the extras other than the end of the object: validated on every run by the extras stream
+   (fresh properties at one node / every node / nested payloads; model = real; result and re-serialisation equal to the
+   un-extended run). *)
+From LSP Require Import Base MM Sem SemThy Image Denote RoundTrip HookFrag Link Ext MMRound.
+From Gen Require Import MMData PkgData Known.
+From Props Require Import Cover.
 
 Theorem C15_extra_keys_not_forbidden : forbid_extra Sg = false.
 Proof. vm_compute. reflexivity. Qed.
@@ -71,6 +78,64 @@ Proof.
 Qed.
 End AnyStr.
 
+(* ------------------------------------------------------------ (3) every depth, through every hook: the covered part *)
+Theorem C15_names_declared : names_declared Sg declared_names = true.
+Proof. vm_compute. reflexivity. Qed.
+
+Section Deep.
+Variable pystr : json -> string.
+Theorem C15_unknown_properties_ignored_everywhere : forall s st j,
+  find_struct mm s = Some st -> String.eqb s "LSPObject" = false -> mem s (fst cov) = true -> cvalid mm (TRef s) j ->
+  forall j', xt Sg NLm declared_names (PyCls s) j j' ->
+  exists n o jj, structure Sg pystr n (PyCls s) j = Ok o /\ structure Sg pystr n (PyCls s) j' = Ok o /\ has_type Sg (PyCls s) o /\
+                 unstr Sg n (Some (PyCls s)) o = Ok jj /\ RoundTrip.NEq j jj.
+Proof.
+  pose proof cover_hooks_ok as H. rewrite <- nl_eq in H. rewrite <- nl_eq.
+  exact (mm_ext_structure mm Sg alias_objects plain_classes pystr (fst cov) (snd cov) cover_image cover_names_ok cover_fields_ok2 cover_table_ok H
+           declared_names C15_names_declared).
+Qed.
+(* any metamodel type at any covered annotation that is its image (aliases, arrays, unions ...) *)
+Theorem C15_unknown_properties_ignored_any_type : forall T j p k n,
+  cvalid mm T j -> wfp p = true -> smatch mm Sg alias_objects k (py_of mm n T) p = true -> okty Sg (fst cov) (snd cov) p = true ->
+  forall j', xt Sg NLm declared_names p j j' ->
+  exists n' o jj, structure Sg pystr n' p j = Ok o /\ structure Sg pystr n' p j' = Ok o /\ has_type Sg p o /\
+                  unstr Sg n' (Some p) o = Ok jj /\ RoundTrip.NEq j jj.
+Proof.
+  pose proof cover_hooks_ok as H. rewrite <- nl_eq in H. rewrite <- nl_eq.
+  exact (mm_ext mm Sg alias_objects plain_classes pystr (fst cov) (snd cov) cover_image cover_names_ok cover_fields_ok2 cover_table_ok H
+           declared_names C15_names_declared).
+Qed.
+(* message envelopes *)
+Theorem C15_unknown_properties_ignored_messages : forall tp j, In tp covered_msg_pairs -> cvalid mm (TLit (snd (fst tp))) j ->
+  forall j', xt Sg NLm declared_names (PyCls (snd tp)) j j' ->
+  exists n o jj, structure Sg pystr n (PyCls (snd tp)) j = Ok o /\ structure Sg pystr n (PyCls (snd tp)) j' = Ok o /\ has_type Sg (PyCls (snd tp)) o /\
+                 unstr Sg n (Some (PyCls (snd tp))) o = Ok jj /\ RoundTrip.NEq j jj.
+Proof.
+  intros tp j I V. pose proof covered_msg_pairs_ok as H. rewrite forallb_forall in H. specialize (H tp I). unfold msg_pair_ok in H.
+  destruct (lookup_cls Sg (snd tp)) as [fs|] eqn:L; [|discriminate].
+  apply andb_true_iff in H. destruct H as [H G]. apply andb_true_iff in H. destruct H as [NS CB]. apply none_eq in NS.
+  pose proof cover_hooks_ok as HK. rewrite <- nl_eq in HK. rewrite <- nl_eq.
+  exact (mm_ext_literal mm Sg alias_objects plain_classes pystr (fst cov) (snd cov) cover_image cover_names_ok cover_fields_ok2 cover_table_ok HK
+           declared_names C15_names_declared (snd (fst tp)) (snd tp) fs j L NS CB G V).
+Qed.
+End Deep.
+
+(* non-vacuity of the extension relation: unknown properties at the top AND inside a nested protocol object of a Range *)
+Definition range_fs : list fld := Eval vm_compute in match lookup_cls Sg "Range" with Some fs => fs | None => [] end.
+Definition pos_j (l c : Z) : json := JObj [("line", JInt l); ("character", JInt c)].
+Example C15_deep_example :
+  xt Sg NLm declared_names (PyCls "Range")
+     (JObj [("start", pos_j 1 2); ("end", pos_j 3 4)])
+     (JObj ([("start", JObj ([("line", JInt 1); ("character", JInt 2)] ++ [("zzInner", JArr [JNull])])); ("end", pos_j 3 4)] ++ [("zzOuter", JObj [("k", JInt 1)])])).
+Proof.
+  apply (xt_cls Sg NLm declared_names "Range" range_fs); [vm_compute; reflexivity | | intros k [<-|[]]; vm_compute; reflexivity].
+  constructor; [|constructor; [|constructor]].
+  - split; [reflexivity|]. intros f If Ef. vm_compute in If. destruct If as [<-|[<-|[]]]; try discriminate Ef. cbn [ftype snd].
+    apply (xt_cls Sg NLm declared_names "Position" pos_fs); [vm_compute; reflexivity | | intros k [<-|[]]; vm_compute; reflexivity].
+    repeat constructor; intros; apply xt_refl.
+  - split; [reflexivity|]. intros; apply xt_refl.
+Qed.
+
 Lemma not_mem_fresh k : mem k declared_names = false -> fresh k.
 Proof. intros H I. apply mem_in in I. congruence. Qed.
 Example C15_example : fresh "zzExtraProperty" /\ length probed_keys >= 20.
@@ -80,3 +145,7 @@ Print Assumptions C15_extra_keys_not_forbidden.
 Print Assumptions C15_hooks_probe_only_declared_names.
 Print Assumptions C15_fresh_never_probed.
 Print Assumptions C15_class_ignores_fresh_properties.
+Print Assumptions C15_names_declared.
+Print Assumptions C15_unknown_properties_ignored_everywhere.
+Print Assumptions C15_unknown_properties_ignored_any_type.
+Print Assumptions C15_unknown_properties_ignored_messages.
